@@ -322,7 +322,7 @@ func runWHRows(c *Ctx, rule string) {
 
 func checkC06(c *Ctx) {
 	r := c.R
-	r.Explanation = "Decides two clauses of C06 as structural necessary conditions (all histories at once): WH-empty — a Write with nothing pending puts nothing on the stream (needed because the reader is sequential and Footer drops empty row groups but not their bytes): every sink-touching call site reachable from ParquetWriter.Write is guarded by a test that rows are pending; WH-rows — the file-level row count is computed from the row groups actually emitted, not from a counter advanced at Add time. Everything else about histories (exact-multiple batches, one row group per batch, ordering) is a model-exploration problem and is NOT decided."
+	r.Explanation = "Decides two clauses of C06 as structural necessary conditions (all histories at once): WH-empty — a Write with nothing pending puts nothing on the stream (needed because the reader is sequential and Footer drops empty row groups but not their bytes): every sink-touching call site reachable from ParquetWriter.Write is guarded by a test that rows are pending; WH-rows — the file-level row count is computed from the row groups actually emitted, not from a counter advanced at Add time; WH-reset — Write re-initialises what Add advances; WH-child — the next page's writer inherits the configuration and the constructor keeps option values; WH-groups — no row group without rows reaches the footer and RowGroup.NumRows is assigned at write time from a per-group counter; TD — Add counts / hands out / advances once per stored record and keeps a page at max records, Write emits the parent's page then the child chain's pages per column. Everything else about histories (exact-multiple batches, one row group per batch, ordering) is a model-exploration problem and is NOT decided."
 	runWHEmpty(c, "WH-empty")
 	runWHRows(c, "WH-rows")
 	runWHReset(c, "WH-reset")
